@@ -422,6 +422,17 @@ class Check:
                         s = "standard-library axiom used by %s: %s" % (n, a)
                         if s not in self.cov["trusted_base"]:
                             self.cov["trusted_base"].append(s)
+        if self.tier == "thorough" and not failed:
+            # independent re-check of the compiled files (and everything they depend on) + axiom report
+            mod = "Argot." + module_rel[len("theories/"):-2].replace("/", ".")
+            rc, out = sh(["coqchk", "-silent", "-o", "-Q", "theories", "Argot", "-Q", "gen", "ArgotGen", mod], timeout=3000, cwd=COQ)
+            m = re.search(r"\* Axioms:(.*?)\n\s*\n", out + "\n\n", flags=re.S)
+            axioms = " ".join(m.group(1).split()) if m else "?"
+            self.cov["coqchk"] = {"cmd": "coqchk -silent -o -Q theories Argot -Q gen ArgotGen " + mod, "rc": rc, "axioms": axioms}
+            self.cov["checker_cmd"] += " + coqchk -silent -o"
+            if rc != 0:
+                failed = list(names)
+                self.notes.append("coqchk failed: " + out[-800:])
         self.cov["discharged"] = len(names) - len([f for f in failed if f in names])
         self.cov["theorems"] = self.theorems
         self.failed_obligations = failed
